@@ -65,6 +65,24 @@ def gen(rng, tier):
         N = sum(len(t) for t in trajs)
         yield {'trajs': trajs, 'lag': 3, 'S': [present[0]], 'F': [present[-1]], 'dtype': 'int64',
                'other': [rng.choice(present) for _ in range(N)], 'M': [['1', '2'], ['3', '4']], 'alpha': akind + '+many-trajs', 'big': True}
+    for _ in range(6 if tier == 'quick' else 80):
+        # strongly UNBALANCED populations: a state seen once or twice among 2^k +- a few frames of another one (index
+        # lists whose lengths differ by far more than a factor 64), and a single basin state among > 64 states
+        if rng.random() < 0.7:
+            N = 2 ** rng.randint(6, 10) + rng.choice([-2, -1, 0, 1, 2, 3])
+            r1, r2 = rng.choice([1, 2]), rng.choice([1, 2, 3])
+            a = [0] * (N - r1) + [1] * r1
+            b = [5] * (N - r2) + [7] * r2
+            if rng.random() < 0.4:
+                p_ = rng.randrange(N - 3)
+                a = a[p_:] + a[:p_]
+            yield {'trajs': [a], 'lag': 1, 'S': [0], 'F': [1], 'dtype': 'int64', 'other': b, 'M': [['1', '2'], ['3', '4']],
+                   'alpha': 'unbalanced', 'big': True}
+        else:
+            k = rng.choice([65, 100, 127, 128, 129])
+            t = [i % k for i in range(k * rng.randint(2, 5) + rng.randint(0, 5))]
+            yield {'trajs': [t], 'lag': 1, 'S': [rng.randrange(k)], 'F': [0], 'dtype': 'int64', 'other': [v % 2 for v in t],
+                   'M': [['1', '2'], ['3', '4']], 'alpha': 'single-basin-of-%d' % k, 'big': True}
     # one labeling pair with far more than 65535 frames of a single (state1, state2) pair
     N = 150001
     a = [0] * 100000 + [1] * 30000 + [2] * 20001
